@@ -44,12 +44,13 @@ pub struct SpecGen<'a> {
     pub features: Vec<String>,
     /// allOf components whose own properties must not repeat a property of the objects they extend (one scope, D)
     pending_allof: Vec<String>,
+    used_keyword_ids: Vec<String>,
 }
 
 fn r(name: &str) -> Value { json!({"$ref": format!("#/components/schemas/{name}")}) }
 
 impl<'a> SpecGen<'a> {
-    pub fn new(rng: &'a mut Rng, opts: GenOpts) -> Self { SpecGen { rng, opts, names: vec![], kinds: vec![], features: vec![], pending_allof: vec![] } }
+    pub fn new(rng: &'a mut Rng, opts: GenOpts) -> Self { SpecGen { rng, opts, names: vec![], kinds: vec![], features: vec![], pending_allof: vec![], used_keyword_ids: vec![] } }
 
     fn feat(&mut self, f: &str) { if !self.features.iter().any(|x| x == f) { self.features.push(f.to_string()); } }
 
@@ -183,6 +184,7 @@ impl<'a> SpecGen<'a> {
                     let later: Vec<String> = self.names.iter().zip(self.kinds.iter()).filter(|(_, k)| **k == "pending").map(|(n, _)| n.clone()).filter(|n| n != name).collect();
                     if !later.is_empty() { let n: String = self.rng.pick(&later[..]).clone(); items = r(&n); self.feat("array_component_of_later_schema"); }
                 }
+                if self.opts.risky && self.rng.chance(1, 8) { items = r(name); self.feat("array_component_of_itself"); }
                 self.feat("array_component");
                 (json!({"type": "array", "items": items}), "array")
             }
@@ -250,6 +252,18 @@ impl<'a> SpecGen<'a> {
                 4 => format!("{}Thing{idx}", stem.to_uppercase()),
                 _ => format!("{stem}Thing{idx}V2"),
             };
+            let mut id = id;
+            if self.opts.risky && self.rng.chance(1, 4) {
+                // identifiers the domain explicitly includes: leading digits and Rust keywords
+                let kw = ["type", "match", "async", "self", "Self", "crate", "fn", "move", "ref", "box", "try", "union", "dyn"];
+                id = match self.rng.below(4) {
+                    0 => format!("2fa-{stem}-{idx}"),
+                    1 => format!("3DSecure{idx}"),
+                    2 => format!("{idx}{stem}"),
+                    _ => { let k = kw[idx % kw.len()]; if self.used_keyword_ids.iter().any(|x| x.eq_ignore_ascii_case(k)) { format!("{k}_{idx}") } else { self.used_keyword_ids.push(k.to_string()); k.to_string() } }
+                };
+                self.feat("risky_operation_id");
+            }
             op.insert("operationId".into(), json!(id));
         } else { self.feat("no_operation_id"); }
         if self.opts.docs {
